@@ -57,6 +57,10 @@ def run(ctx) -> None:
     ctx.rule("CHR", "per character class: forbidden characters never raw; constant escapes denote their class; numeric escapes legal and self-delimiting", floor=180)
     ctx.rule("NEEDS", "needs_escaping returns False only for characters that may stand raw between double quotes", floor=40)
     ctx.rule("GUARD", "callers of cpp.string_literal establish or handle its ASCII-only contract", floor=1)
+    ctx.rule("BYTES", "byte-sequence literals emit every byte exactly once (chunks tile the value) as two hex digits", floor=20)
+    from ..rules import bytelit
+    for key in ("python.common:bytes_literal", "cpp.common:bytes_literal", "golang.common:bytes_literal", "typescript.common:bytes_literal"):
+        bytelit.check_bytes_literal(ctx, p.func(key), "BYTES")
     n_classes = 0
     for lang, key, modes in JOBS:
         f = p.func(key)
